@@ -12,6 +12,9 @@ RW = sys.argv[1]
 ONLY = sys.argv[2:]
 ENV = dict(os.environ, GOFLAGS='-mod=mod', GOPROXY='off', GOSUMDB='off', GOTOOLCHAIN='local', VERIF_REPO=RW)
 P = RW + '/graphql/parser/parser.go'
+SC = RW + '/graphql/scanner/scanner.go'
+AST = RW + '/graphql/ast/ast.go'
+FILES = {'scanner': SC, 'ast': AST}
 
 
 def once(old, new):
@@ -79,6 +82,29 @@ MUTANTS = [
  ('L6 ObjectValue.Closing set to the opening brace',
   once('\t\t\t\t\t\tFields:  fields,\n\t\t\t\t\t\tOpening: opening,\n\t\t\t\t\t\tClosing: t.Position,', '\t\t\t\t\t\tFields:  fields,\n\t\t\t\t\t\tOpening: opening,\n\t\t\t\t\t\tClosing: opening,')),
  ('L7 exit() removed from parseVariable', in_fn('parseVariable', '\tp.exit()\n', '')),
+ ('N1 end-of-input position read before Scan() (the position of the previous token is reported at EOF)',
+  chain(once('\tif p.scanner.Scan() {\n\t\tp.nextToken = &parserToken{', '\tprev := p.scanner.Position()\n\tif p.scanner.Scan() {\n\t\tp.nextToken = &parserToken{'),
+        once('\t\t\tValue:    "EOF",\n\t\t\tPosition: p.scanner.Position(),', '\t\t\tValue:    "EOF",\n\t\t\tPosition: prev,'))),
+ ('N2 scanner errors of the Scan call that found the end of input are dropped (needs a lexical error after the last token)',
+  once('\tfor _, err := range p.scanner.Errors()[p.scannerErrors:] {\n', '\tfor _, err := range p.scanner.Errors()[p.scannerErrors:] {\n\t\tif p.eof {\n\t\t\tbreak\n\t\t}\n')),
+ ('N3 only the first new scanner error is taken per consumeToken, the others one call late (needs two errors inside one token)',
+  once('\t\tp.scannerErrors++\n', '\t\tp.scannerErrors++\n\t\tbreak\n')),
+ ('N4 token value taken from Literal() instead of StringValue() (needs a string token)',
+  once('\t\t\tValue:    p.scanner.StringValue(),', '\t\t\tValue:    p.scanner.Literal(),')),
+ ('N5 at most three directives per node (needs four)',
+  in_fn('parseOptionalDirectives', '\tfor {\n\t\tif t := p.peek(); t.Token != token.PUNCTUATOR', '\tfor len(ret) < 3 {\n\t\tif t := p.peek(); t.Token != token.PUNCTUATOR')),
+ ('N6 SCANNER: a lone CR does not start a new line (needs CR-only line ends before a token)',
+  ('scanner', once("\tif r == '\\n' || (r == '\\r' && s.nextRune != '\\n') {", "\tif r == '\\n' {"))),
+ ('N7 SCANNER: U+FEFF accepted as a byte order mark anywhere (needs an inner BOM)',
+  ('scanner', once('\t\t\tif s.offset == 0 {\n\t\t\t\ts.token = token.UNICODE_BOM', '\t\t\tif s.offset >= 0 {\n\t\t\t\ts.token = token.UNICODE_BOM'))),
+ ('P1 AST: (*Field).Position() ignores the alias (needs an aliased field)',
+  ('ast', once('\tif n.Alias != nil {\n\t\treturn n.Alias.Position()\n\t}\n\treturn n.Name.Position()', '\treturn n.Name.Position()'))),
+ ('P2 AST: (*OperationDefinition).Position() of a typed operation is its selection set (needs query/mutation/subscription)',
+  ('ast', once('\tif n.OperationType != nil {\n\t\treturn n.OperationType.Position()\n\t}\n\treturn n.SelectionSet.Position()', '\treturn n.SelectionSet.Position()'))),
+ ('P3 AST: (*ObjectField).Position() is the position of the value (needs an object value)',
+  ('ast', once('func (n *ObjectField) Position() token.Position { return n.Name.Position() }', 'func (n *ObjectField) Position() token.Position { return n.Value.Position() }'))),
+ ('P4 AST: (*ListType).Position() is the closing bracket (needs a list type)',
+  ('ast', once('func (n *ListType) Position() token.Position { return n.Opening }', 'func (n *ListType) Position() token.Position { return n.Closing }'))),
  ('S1 silent: error messages reworded, locals renamed, composite-literal fields reordered', silent),
 ]
 
@@ -102,10 +128,13 @@ def main():
     for name, fn in MUTANTS:
         if ONLY and not any(name.startswith(o) for o in ONLY):
             continue
-        src = open(P).read()
+        path = P
+        if isinstance(fn, tuple):
+            path, fn = FILES[fn[0]], fn[1]
+        src = open(path).read()
         m = fn(src)
         assert m != src, name
-        open(P, 'w').write(m)
+        open(path, 'w').write(m)
         try:
             rc, out = sh('go build ./... && go test -vet=off -count=1 ./... 2>&1 | grep -v "no test files" | grep -v "^ok" | head -20', RW)
             tests_ok = out.strip() == ''
@@ -116,7 +145,7 @@ def main():
             results[name] = dict(mutant=name, suite_passes=tests_ok, runs=runs)
             print(name, '| suite passes:', tests_ok, '|', [(r['exit'], r['violations']) for r in runs], flush=True)
         finally:
-            sh('git checkout graphql/parser/parser.go', RW)
+            sh('git checkout graphql/parser/parser.go graphql/scanner/scanner.go graphql/ast/ast.go', RW)
     json.dump(dict(clean_tree=clean, mutants=list(results.values())), open(out_path, 'w'), indent=1)
 
 
